@@ -1,11 +1,11 @@
 """C04 — parallel adaptation is as safe as serial; the gathered output has every vertex and cell exactly once."""
-from . import cli, streams_par, streams_subdiv
+from . import cli, streams_par, streams_subdiv, streams_rcb
 
 ID = 'C04'
-PROPS_MODULE = ['Refine.Props.C04', 'Refine.Props.C13Subdiv']
+PROPS_MODULE = ['Refine.Props.C04', 'Refine.Props.C13Subdiv', 'Refine.Props.C04Rcb']
 STREAMS = [streams_par.GUARDS, streams_par.GATHER_NODE, streams_par.GATHER_CELL, streams_par.GATHER_FILE,
            streams_par.ADAPT_ALL_NP, streams_subdiv.FN,
-           cli.ADAPT_MPI, cli.ADAPT_MPI_WIDE]
+           cli.ADAPT_MPI, cli.ADAPT_MPI_WIDE] + streams_rcb.STREAMS
 # the all-np stream already covers np = 2,3,4 in the quick tier; the two wider cli streams run in the thorough tier
 cli.ADAPT_MPI.thorough_only = True
 EXPLANATION = (
@@ -36,7 +36,29 @@ EXPLANATION = (
     'template of the face\'s side marks only - it does not depend on which tet, local vertex order or rank the face '
     'is seen from and reverses with the face (subdiv_tet_conforming, subdiv_face_reverse, subdiv_face_rotate, '
     'tet_face_marks), and children keep orientation and total volume (subdiv_tet_volume, subdiv_tet_orientation); '
-    'tied serially by stream subdiv_fn (see C13).')
+    'tied serially by stream subdiv_fn (see C13). '
+    '(e) the load balancer (Refine.Model.Rcb, Refine.Props.C04Rcb): ref_migrate_new_part / ref_migrate_native_rcb_part / '
+    'the recursive ref_migrate_native_rcb_direction with ref_migrate_split_dir, ref_migrate_split_ratio, '
+    'ref_search_selection, ref_mpi_balance, ref_mpi_front_comm, the leaf ref_mpi_blindsend and the rand()-derived '
+    'rotation are modelled (well-founded recursion on npart, no fuel). Proved for every rank count, every number of '
+    'vertices per rank (empty ranks), every rand stream, seed and direction, with npart <= ref_mpi_n (rcb_npart_le: '
+    'what ref_migrate_to_balance passes) and fewer than 2^31 vertices: the call returns on every rank, every rank '
+    'ends in exactly one leaf, no point is lost or duplicated by the copy loop / balance for ANY selection result '
+    '(rcb_partition_of_points, rcb_level), part ids lie in [offset, offset+npart) with the two halves on disjoint '
+    'adjacent ranges and every id used (rcb_total_in_range), every owned slot of node_part is written exactly once '
+    'with an id in [0,npart) and the other slots keep REF_EMPTY, so the range check of '
+    'ref_migrate_report_load_balance never fires (rcb_part_total, rcb_new_part_ok, rcb_single_cases); split_ratio '
+    'and termination (rcb_ratio); half sizes up to the ties at the cut values given exact k-th values '
+    '(rcb_balanced_partial; with the truncated positions the C computes half 0 is within 2 plus the surplus ties of '
+    'N*npart0/npart: rcb_balanced_target_partial); the part of a vertex is a function of its coordinates and of the multiset of owned '
+    'coordinates, the rand stream, seed and np - not of the distribution over ranks, the order on a rank or slot '
+    'labels (rcb_cut_data_only, rcb_deterministic_in_data, rcb_equal_points_same_part, rcb_part_deterministic for the '
+    'node_part arrays). Tie: streams rcb_fn '
+    '(white-box static ref_migrate_new_part + ref_node_ghost_int, ref_migrate_split_dir, ref_migrate_split_ratio; '
+    'libc rand() replaced in the harness so the stream is an input) and rcb_balance (the real ref_migrate_to_balance '
+    'on grids without cells, incl. the keep-small-grids-on-few-ranks heuristic) at np = 1,2,3,4,5,8: part arrays '
+    'identical to the model bit for bit; rcb_run: real grids, repeated ref_migrate_to_balance, distInv evaluated on '
+    'the migrate_shufflin dumps (parts in range, owner and ghost copies agree).')
 ASSUMPTIONS = [
     'the ranks agree on part for every node they both store (distInv clause; ghost part refresh is package dist / C06)',
     'the kernels modify only cells of the set named in the guard theorems (split/swap: cells containing both edge '
@@ -53,5 +75,12 @@ ASSUMPTIONS = [
     'payload addition only needs 0 + x = x = x + 0; for IEEE doubles this holds bit-for-bit except that a coordinate '
     '-0.0 is written as +0.0 when np > 1 (MPI_SUM with the other ranks\' +0.0)',
     'only ParMETIS-/Zoltan-free partitioners exist in this build (recommended, single, native RCB)',
+    'load balancer: the xyz/owners/locals arrays balanced by three ref_mpi_balance calls of equal counts travel as one '
+    'record in the model, the two leaf blindsends as one pair; ref_mpi_front_comm is take/drop of the rank list; the '
+    'balance claim assumes exact k-th values from ref_search_selection (C17 proves only the 2^-40 bracket) and is up to '
+    'ties; |coordinates| < 1e200 (REF_DBL_MAX sentinels) in the generated inputs; the ghost refresh of the part '
+    'array is the model Dist.ghost (tied here by diff, its exchange is not proved - C06); ref_migrate_shufflin is not '
+    'modelled here (C06): for rcb_balance the driver predicts that on a grid without cells rank r ends with exactly '
+    'the vertices whose new part is r',
     'C integer arithmetic is modelled with unbounded Int/Nat (no 32-bit wrap-around of chunk or global ids)',
 ]
